@@ -46,6 +46,10 @@ func run(c hx.Config) error {
 			return
 		}
 		cs := cx.Build(cfg, s, in)
+		if cs.Nondet {
+			o.Count("skipped:member-answers-differ-between-calls")
+			return
+		}
 		ob := cx.Observe(s, in)
 		impl := "err"
 		switch {
